@@ -45,3 +45,265 @@ Proof.
     first [ now exists East | now exists NorthEast | now exists North
           | now exists West | now exists SouthWest | now exists South ].
 Qed.
+
+(* ================================================================================================
+   The hexagonal norm and the kernels *)
+Definition hexnorm (p : chip) : Z :=
+  Z.max (Z.max (fst p) (snd p)) 0 - Z.min (Z.min (fst p) (snd p)) 0.
+Definition chip_sub (p q : chip) : chip := (fst p - fst q, snd p - snd q).
+
+Ltac no_if t := lazymatch t with context [if _ then _ else _] => fail | _ => idtac end.
+Ltac break_cmp :=
+  repeat (match goal with
+          | |- context [Z.gtb ?a ?b] => rewrite (Z.gtb_ltb a b)
+          | |- context [Z.geb ?a ?b] => rewrite (Z.geb_leb a b)
+          | |- context [Z.ltb ?a ?b] => no_if a; no_if b; destruct (Z.ltb_spec a b)
+          | |- context [Z.leb ?a ?b] => no_if a; no_if b; destruct (Z.leb_spec a b)
+          end; cbv iota).
+
+Lemma mesh_length_norm :
+  forall s d, shortest_mesh_path_length s d = hexnorm (chip_sub (to2d d) (to2d s)).
+Proof.
+  intros [[sx sy] sz] [[dx dy] dz].
+  unfold shortest_mesh_path_length, hexnorm, chip_sub, to2d; cbn [fst snd].
+  break_cmp; lia.
+Qed.
+
+Lemma minimise_to2d : forall v, to2d (minimise_xyz v) = to2d v.
+Proof. intros [[x y] z]. unfold minimise_xyz, to2d. f_equal; lia. Qed.
+
+Lemma minimise_hops : forall v, hops (minimise_xyz v) = hexnorm (to2d v).
+Proof.
+  intros [[x y] z]. unfold minimise_xyz, hops, hexnorm, to2d; cbn [fst snd]. lia.
+Qed.
+
+(* ================================================================================================
+   Walks on the mesh *)
+Lemma mesh_walk_app : forall l1 l2 p, mesh_walk p (l1 ++ l2) = mesh_walk (mesh_walk p l1) l2.
+Proof. intros. unfold mesh_walk. apply fold_left_app. Qed.
+
+Lemma len_app : forall l1 l2, len (l1 ++ l2) = len l1 + len l2.
+Proof. intros. unfold len. rewrite app_length. lia. Qed.
+
+Lemma mesh_walk_repeat :
+  forall l n p, mesh_walk p (repeat l n) =
+                (fst p + Z.of_nat n * fst (link_vec l), snd p + Z.of_nat n * snd (link_vec l)).
+Proof.
+  intros l n. induction n as [|n IH]; intros [x y].
+  - cbn. f_equal; lia.
+  - change (repeat l (S n)) with (l :: repeat l n).
+    change (mesh_walk (x, y) (l :: repeat l n)) with (mesh_walk (mesh_step (x, y) l) (repeat l n)).
+    rewrite IH. unfold mesh_step; cbn [fst snd]. f_equal; lia.
+Qed.
+
+Lemma len_repeat : forall l n, len (repeat l n) = Z.of_nat n.
+Proof. intros. unfold len. now rewrite repeat_length. Qed.
+
+(* c hops along one axis: the link `pos` if c >= 0, `neg` otherwise *)
+Definition axis_walk (pos neg : hexlink) (c : Z) : list hexlink :=
+  if c <? 0 then repeat neg (Z.to_nat (- c)) else repeat pos (Z.to_nat c).
+
+Lemma axis_walk_len : forall pos neg c, len (axis_walk pos neg c) = Z.abs c.
+Proof. intros. unfold axis_walk. destruct (Z.ltb_spec c 0); rewrite len_repeat; lia. Qed.
+
+Lemma axis_walk_end :
+  forall pos neg c p,
+    link_vec neg = (- fst (link_vec pos), - snd (link_vec pos)) ->
+    mesh_walk p (axis_walk pos neg c) = (fst p + c * fst (link_vec pos), snd p + c * snd (link_vec pos)).
+Proof.
+  intros pos neg c p Hn. unfold axis_walk.
+  destruct (Z.ltb_spec c 0); rewrite mesh_walk_repeat, Z2Nat.id by lia.
+  - rewrite Hn; cbn [fst snd]. f_equal; ring.
+  - reflexivity.
+Qed.
+
+(* a three-axis vector is a walk of [hops v] links to the chip it denotes *)
+Definition vector_walk (v : Z * Z * Z) : list hexlink :=
+  let '(x, y, z) := v in
+  axis_walk East West x ++ axis_walk North South y ++ axis_walk SouthWest NorthEast z.
+
+Lemma vector_walk_len : forall v, len (vector_walk v) = hops v.
+Proof. intros [[x y] z]. unfold vector_walk, hops. rewrite !len_app, !axis_walk_len. lia. Qed.
+
+Lemma vector_walk_end : forall v p, mesh_walk p (vector_walk v) = chip_add p (to2d v).
+Proof.
+  intros [[x y] z] [px py]. unfold vector_walk.
+  rewrite !mesh_walk_app, !axis_walk_end by reflexivity.
+  unfold chip_add, to2d; cbn [fst snd link_vec]. f_equal; lia.
+Qed.
+
+(* a step changes the norm of the displacement from a fixed chip by at most one *)
+Lemma step_norm :
+  forall a p l, hexnorm (chip_sub (mesh_step p l) a) <= hexnorm (chip_sub p a) + 1.
+Proof.
+  intros [ax ay] [px py] l. unfold hexnorm, chip_sub, mesh_step; cbn [fst snd].
+  destruct l; cbn [link_vec fst snd]; lia.
+Qed.
+
+Lemma walk_norm :
+  forall a ls p, hexnorm (chip_sub (mesh_walk p ls) a) <= hexnorm (chip_sub p a) + len ls.
+Proof.
+  intros a ls. induction ls as [|l ls IH]; intros p.
+  - cbn. unfold len; cbn. lia.
+  - change (mesh_walk p (l :: ls)) with (mesh_walk (mesh_step p l) ls).
+    specialize (IH (mesh_step p l)). pose proof (step_norm a p l).
+    unfold len in *. cbn [length]. lia.
+Qed.
+
+Lemma hexnorm_zero : forall a, hexnorm (chip_sub a a) = 0.
+Proof. intros [x y]. unfold hexnorm, chip_sub; cbn [fst snd]. lia. Qed.
+
+(* the graph distance on the mesh is the hexagonal norm of the displacement *)
+Lemma mesh_distance_norm : forall a b, is_mesh_distance a b (hexnorm (chip_sub b a)).
+Proof.
+  intros a b. split.
+  - exists (vector_walk (minimise_xyz (fst (chip_sub b a), snd (chip_sub b a), 0))).
+    rewrite vector_walk_end, vector_walk_len, minimise_hops, minimise_to2d.
+    destruct a as [ax ay], b as [bx by_]. unfold chip_add, chip_sub, to2d, hexnorm; cbn [fst snd].
+    split; [f_equal; lia | f_equal; f_equal; lia].
+  - intros ls H. pose proof (walk_norm a ls a) as W. rewrite H, hexnorm_zero in W. lia.
+Qed.
+
+Lemma mesh_length_is_distance :
+  forall s d, is_mesh_distance (to2d s) (to2d d) (shortest_mesh_path_length s d).
+Proof. intros. rewrite mesh_length_norm. apply mesh_distance_norm. Qed.
+
+Lemma mesh_path_vector :
+  forall s d,
+    hops (shortest_mesh_path s d) = shortest_mesh_path_length s d /\
+    chip_add (to2d s) (to2d (shortest_mesh_path s d)) = to2d d /\
+    mesh_walk (to2d s) (vector_walk (shortest_mesh_path s d)) = to2d d /\
+    len (vector_walk (shortest_mesh_path s d)) = shortest_mesh_path_length s d.
+Proof.
+  intros s d.
+  assert (H1 : hops (shortest_mesh_path s d) = shortest_mesh_path_length s d).
+  { rewrite mesh_length_norm. destruct s as [[sx sy] sz], d as [[dx dy] dz].
+    unfold shortest_mesh_path. rewrite minimise_hops. unfold to2d, chip_sub; cbn [fst snd].
+    f_equal. f_equal; lia. }
+  assert (H2 : chip_add (to2d s) (to2d (shortest_mesh_path s d)) = to2d d).
+  { destruct s as [[sx sy] sz], d as [[dx dy] dz].
+    unfold shortest_mesh_path. rewrite minimise_to2d. unfold to2d, chip_add; cbn [fst snd].
+    f_equal; lia. }
+  repeat split; auto.
+  - now rewrite vector_walk_end.
+  - now rewrite vector_walk_len.
+Qed.
+
+(* all three-axis representations of the same two chips give the same length *)
+Lemma mesh_length_representation :
+  forall s d s' d', to2d s = to2d s' -> to2d d = to2d d' ->
+                    shortest_mesh_path_length s d = shortest_mesh_path_length s' d'.
+Proof. intros. rewrite !mesh_length_norm. congruence. Qed.
+
+(* ================================================================================================
+   Walks on the torus *)
+Lemma wrap_step :
+  forall w h p l, torus_step w h (wrap w h p) l = wrap w h (mesh_step p l).
+Proof.
+  intros. unfold torus_step, wrap, mesh_step; cbn [fst snd].
+  f_equal; apply Zplus_mod_idemp_l.
+Qed.
+
+Lemma torus_walk_wrap :
+  forall w h ls p, torus_walk w h (wrap w h p) ls = wrap w h (mesh_walk p ls).
+Proof.
+  intros w h ls. induction ls as [|l ls IH]; intros p.
+  - reflexivity.
+  - change (torus_walk w h (wrap w h p) (l :: ls))
+      with (torus_walk w h (torus_step w h (wrap w h p) l) ls).
+    rewrite wrap_step, IH. reflexivity.
+Qed.
+
+(* the code's formula: the least of the four wrap candidates *)
+Definition tlen (w h x y : Z) : Z :=
+  Z.min (Z.min (Z.min (Z.max x y) (w - x + y)) (x + h - y)) (Z.max (w - x) (h - y)).
+
+Lemma torus_length_tlen :
+  forall s d w h,
+    shortest_torus_path_length s d w h =
+    tlen w h (fst (torus_delta s d w h)) (snd (torus_delta s d w h)).
+Proof.
+  intros [[sx sy] sz] [[dx dy] dz] w h.
+  unfold shortest_torus_path_length, torus_delta, tlen; cbn [fst snd].
+  replace (dx - sx - (dz - sz)) with (dx - dz - (sx - sz)) by lia.
+  replace (dy - sy - (dz - sz)) with (dy - dz - (sy - sz)) by lia.
+  generalize ((dx - dz - (sx - sz)) mod w) as x. generalize ((dy - dz - (sy - sz)) mod h) as y.
+  intros y x. break_cmp; lia.
+Qed.
+
+Lemma torus_delta_to2d :
+  forall s d w h,
+    torus_delta s d w h =
+    ((fst (to2d d) - fst (to2d s)) mod w, (snd (to2d d) - snd (to2d s)) mod h).
+Proof.
+  intros [[sx sy] sz] [[dx dy] dz] w h. unfold torus_delta, to2d; cbn [fst snd].
+  f_equal; f_equal; lia.
+Qed.
+
+Lemma multiple_cases :
+  forall i w, 1 <= w -> i * w = 0 \/ w <= i * w \/ i * w = - w \/ i * w <= - 2 * w.
+Proof. intros i w Hw. assert (i = 0 \/ 1 <= i \/ i = -1 \/ i <= -2) as [->|[H|[->|H]]] by lia; nia. Qed.
+
+(* no lattice translate of the displacement is shorter than the least of the four candidates *)
+Lemma tlen_lower :
+  forall w h x y i j, 0 <= x < w -> 0 <= y < h ->
+                      tlen w h x y <= hexnorm (x + i * w, y + j * h).
+Proof.
+  intros w h x y i j Hx Hy.
+  pose proof (multiple_cases i w ltac:(lia)) as Hi.
+  pose proof (multiple_cases j h ltac:(lia)) as Hj.
+  unfold tlen, hexnorm; cbn [fst snd].
+  generalize dependent (i * w). generalize dependent (j * h). intros b Hb a Ha.
+  destruct Ha as [Ha|[Ha|[Ha|Ha]]]; destruct Hb as [Hb|[Hb|[Hb|Hb]]]; lia.
+Qed.
+
+(* and the least candidate is one of them *)
+Lemma tlen_achieved :
+  forall w h x y, 0 <= x < w -> 0 <= y < h ->
+                  exists i j, tlen w h x y = hexnorm (x + i * w, y + j * h).
+Proof.
+  intros w h x y Hx Hy.
+  assert (C : tlen w h x y = hexnorm (x + 0 * w, y + 0 * h) \/
+              tlen w h x y = hexnorm (x + (-1) * w, y + 0 * h) \/
+              tlen w h x y = hexnorm (x + 0 * w, y + (-1) * h) \/
+              tlen w h x y = hexnorm (x + (-1) * w, y + (-1) * h))
+    by (unfold tlen, hexnorm; cbn [fst snd]; lia).
+  destruct C as [C|[C|[C|C]]]; eauto.
+Qed.
+
+Lemma mod_eq_translate :
+  forall w a b e, 1 <= w -> e mod w = b mod w -> e - a = (b - a) mod w + ((e - a) / w) * w.
+Proof.
+  intros w a b e Hw H.
+  assert (E : (e - a) mod w = (b - a) mod w) by (rewrite Zminus_mod, H, <- Zminus_mod; reflexivity).
+  rewrite <- E. pose proof (Z.div_mod (e - a) w ltac:(lia)). lia.
+Qed.
+
+Lemma torus_length_is_distance :
+  forall s d w h, 1 <= w -> 1 <= h ->
+    is_torus_distance w h (wrap w h (to2d s)) (wrap w h (to2d d)) (shortest_torus_path_length s d w h).
+Proof.
+  intros s d w h Hw Hh.
+  rewrite torus_length_tlen, torus_delta_to2d; cbn [fst snd].
+  destruct (to2d s) as [ax ay] eqn:Ea. destruct (to2d d) as [bx by_] eqn:Eb. cbn [fst snd].
+  set (x := (bx - ax) mod w). set (y := (by_ - ay) mod h).
+  assert (Hx : 0 <= x < w) by (apply Z.mod_pos_bound; lia).
+  assert (Hy : 0 <= y < h) by (apply Z.mod_pos_bound; lia).
+  split.
+  - destruct (tlen_achieved w h x y Hx Hy) as (i & j & Hij).
+    exists (vector_walk (minimise_xyz (x + i * w, y + j * h, 0))).
+    rewrite torus_walk_wrap, vector_walk_end, vector_walk_len, minimise_hops, minimise_to2d.
+    split.
+    + unfold wrap, chip_add, to2d; cbn [fst snd]. rewrite !Z.sub_0_r.
+      rewrite !Z.add_assoc, !Z_mod_plus_full. unfold x, y.
+      rewrite !Zplus_mod_idemp_r. f_equal; f_equal; lia.
+    + rewrite Hij. unfold to2d. now rewrite !Z.sub_0_r.
+  - intros ls H. rewrite torus_walk_wrap in H.
+    destruct (mesh_walk (ax, ay) ls) as [ex ey] eqn:Ee.
+    unfold wrap in H; cbn [fst snd] in H. injection H as H1 H2.
+    pose proof (walk_norm (ax, ay) ls (ax, ay)) as W. rewrite Ee, hexnorm_zero in W.
+    unfold chip_sub in W; cbn [fst snd] in W.
+    rewrite (mod_eq_translate w ax bx ex Hw H1), (mod_eq_translate h ay by_ ey Hh H2) in W.
+    pose proof (tlen_lower w h x y ((ex - ax) / w) ((ey - ay) / h) Hx Hy) as L.
+    fold x y in W. lia.
+Qed.
